@@ -52,3 +52,12 @@ for (_fn, _owner, _h, _tgt) in _RG.RETRY:
         'bounded': True, 'bound': 'r <= 1, 3 scripted attempts'}
     if _h not in ('retry_wiring_mindustry', 'retry_wiring_quake'):   # these two do not finish under CBMC (>20 min): not counted
         SETS['C10'].append(_h)
+
+HARNESSES['settings_new_rejects_exactly_zero_durations'] = {'module': 'verif_core.rs', 'target': 'protocols::types::TimeoutSettings::{new, get_*, get_*_or_default}',
+    'what': 'new() is Err(InvalidInput) iff a duration is zero, for ALL (secs, nanos) of the three optional durations and all retry counts; getters return the stored values (loop-free: complete)'}
+HARNESSES['settings_defaults_are_valid'] = {'module': 'verif_core.rs', 'target': 'TimeoutSettings::{default, const_default, *_or_default(None)}', 'what': 'defaults contain no zero duration, retries 0 (complete)'}
+HARNESSES['retry_extreme_counts'] = {'module': 'verif_core.rs', 'target': 'utils::retry_on_timeout', 'what': 'retry counts usize::MAX-1 and usize::MAX: no overflow, the closure is called and its success returned (complete for these counts)'}
+HARNESSES['retry_small_counts_all_scripts'] = {'module': 'verif_core.rs', 'target': 'utils::retry_on_timeout', 'timeout': 1500, 'tier': 'thorough',
+    'what': 'r in 0..=2 over all 625 four-attempt outcome scripts: attempts, first decisive outcome, last timeout error', 'bounded': True, 'bound': 'r <= 2'}
+SETS['C18'] = ['settings_new_rejects_exactly_zero_durations', 'settings_defaults_are_valid', 'retry_extreme_counts']
+SETS['C10'] = ['retry_small_counts_all_scripts', 'retry_extreme_counts'] + SETS['C10']
